@@ -306,6 +306,7 @@ pub fn run_check(check: &dyn Check, tier: Tier, exe: &str) -> RunOutcome {
     }
     let mut outcomes: HashSet<String> = HashSet::new();
     let mut samples: Vec<Value> = Vec::new();
+    let mut sample_scan = 0usize;
     let mut found: Vec<Value> = Vec::new();
     for v in &vals {
         if let Some(a) = v.get("outcomes").and_then(|x| x.as_array()) {
@@ -316,11 +317,14 @@ pub fn run_check(check: &dyn Check, tier: Tier, exe: &str) -> RunOutcome {
             }
         }
         if let Some(a) = v.get("samples").and_then(|x| x.as_array()) {
-            for s in a {
-                if samples.len() < 8 {
+            // at most one sample per work item, spread over the items
+            let rich = |v: &Value| v.get("history").and_then(|h| h.as_str()).map(|h| h.matches('(').count()).unwrap_or(0);
+            if let Some(s) = a.iter().max_by_key(|v| rich(v)) {
+                if samples.len() < 12 && (samples.len() < 4 || (items.len() >= 12 && samples.len() * (items.len() / 12).max(1) <= sample_scan)) {
                     samples.push(s.clone());
                 }
             }
+            sample_scan += 1;
         }
         if let Some(a) = v.get("found").and_then(|x| x.as_array()) {
             found.extend(a.iter().cloned());
